@@ -334,8 +334,10 @@ def searchCore (s : Index) (q : VecRef) (k : Nat) : List Hit :=
     let (cur, _) := descend dist s q 0 (s.levelOf ep) ep (dist q (s.vecOf ep))
     let n := searchLevel Pmin Pmax dist s q cur (max cfg.ef k) 0
     let sel := selectNbrs Pmin Pmax dist cfg s q n k 0
+    -- a tombstoned vertex (only the start vertex can be one: its tombstone is never tested on the
+    -- way) is not a result
     ((Pmax.drain sel).take k).reverse.filterMap fun it =>
-      (s.verts it.vid).map fun x => ⟨x.id, x.md, it.score⟩
+      (s.verts it.vid).bind fun x => if x.deleted then none else some ⟨x.id, x.md, it.score⟩
 
 /-- `k` is clamped to the number of stored items (`if l := this.Len(); l > 0 && k > l { k = l }`) -/
 def clampK (s : Index) (k : Nat) : Nat :=
